@@ -391,6 +391,12 @@ where
     };
 
     let max_height_log = index_bits.len();
+    if cap_height > max_height_log {
+        return Err(CircuitBuilderError::InvalidDimension {
+            expected: max_height_log,
+            actual: cap_height,
+        });
+    }
     let path_depth = max_height_log - cap_height;
 
     // Split index_bits into path bits (for Merkle traversal) and cap index bits
@@ -508,6 +514,12 @@ where
     };
 
     let max_height_log = index_bits.len();
+    if cap_height > max_height_log {
+        return Err(CircuitBuilderError::InvalidDimension {
+            expected: max_height_log,
+            actual: cap_height,
+        });
+    }
     let path_depth = max_height_log - cap_height;
     let path_bits = &index_bits[..path_depth];
     let cap_index_bits = &index_bits[path_depth..];
